@@ -10,6 +10,8 @@ import Driver.Backend
 import Driver.Latch
 import Driver.Recover
 import Driver.Storage
+import Driver.Sched
+import Driver.Mt
 /-! Line-protocol driver. First token of each line selects the model. -/
 open Redb.Driver
 
@@ -22,6 +24,7 @@ structure DState where
   cat : CatState := {}
   stor : StState := {}
   bk : BkState := {}
+  sch : SchState := {}
 
 def dispatch (st : DState) (line : String) : DState × String :=
   let (req, obs) := splitLine line
@@ -46,12 +49,17 @@ def dispatch (st : DState) (line : String) : DState × String :=
     let (b, out) := bkStep st.bk rest obs
     ({ st with bk := b }, out)
   | "latch" :: rest => (st, latchStep rest)
+  | "mt" :: rest => (st, mtStep (rest ++ "=>" :: obs))
   | "crash" :: _ => (st, "skip")
   | "fault" :: _ => (st, "skip")
   | "corrupt" :: _ => (st, "skip")
   | "mm" :: rest =>
     let (t, out) := mmStep st.mm rest obs
     ({ st with mm := t }, out)
+  | "sch" :: rest =>
+    -- forced schedules replayed on the interleaving model (C03 / C16), Driver/Sched.lean
+    let (t, out) := schStep st.sch rest
+    ({ st with sch := t }, out)
   | _ => (st, "bad-op")
 
 partial def loop (h : IO.FS.Stream) (out : IO.FS.Stream) (st : DState) : IO Unit := do
